@@ -263,6 +263,48 @@ class Obligation:
         self.result = None
 
 
+_SIGNATURES = None
+
+
+def signature_of(fn):
+    a = fn.node.args
+    pos = [p.arg for p in a.posonlyargs + a.args]
+    nd = len(a.defaults)
+    return {"params": pos, "defaults": nd, "vararg": a.vararg.arg if a.vararg else None, "kwonly": [p.arg for p in a.kwonlyargs], "kwarg": a.kwarg.arg if a.kwarg else None}
+
+
+def check_signature(q, fn):
+    """A callee contract was written for the signature the function had when the contract was written (contracts/signatures.json,
+    recorded from the tree the contracts were verified on).  A different signature means the contract no longer describes the
+    callee: Unsupported (-> undecided + bounded stand-in), never a silent application."""
+    global _SIGNATURES
+    import json
+    import os
+
+    if not hasattr(fn, "node") or not hasattr(fn.node, "args"):
+        return
+    path = os.path.join(os.path.dirname(os.path.dirname(os.path.abspath(__file__))), "contracts", "signatures.json")
+    if _SIGNATURES is None:
+        try:
+            _SIGNATURES = json.load(open(path))
+        except Exception:
+            _SIGNATURES = {}
+    sig = signature_of(fn)
+    if os.environ.get("PVC_RECORD_SIGNATURES"):
+        if _SIGNATURES.get(q) != sig:
+            _SIGNATURES[q] = sig
+            try:
+                cur = json.load(open(path))
+            except Exception:
+                cur = {}
+            cur[q] = sig
+            json.dump(cur, open(path, "w"), indent=1, sort_keys=True)
+        return
+    want = _SIGNATURES.get(q)
+    if want is not None and want != sig:
+        raise Unsupported(f"signature of {q} changed: contract written for {want['params']}, now {sig['params']} (callee contract not applicable)")
+
+
 class Path:
     def __init__(self, decisions):
         self.decisions = list(decisions)
@@ -1187,6 +1229,7 @@ class Interp:
     def call_closure(self, fn, args, kwargs):
         q = fn.qualname
         if q in self.contracts:
+            check_signature(q, fn)
             return self.apply_contract(q, args, kwargs)
         nested = fn.enclosing is not None or q == "<lambda>"
         if nested or q in self.inline:
